@@ -23,7 +23,9 @@ type Env struct {
 	depth int
 	// localFirst: names of locals (loop-head values) shadow parameters of the same name (loop invariants)
 	localFirst bool
-	bound      map[string]bool // quantifier-bound names (never resolved as locals)
+	bound      map[string]bool  // quantifier-bound names (never resolved as locals)
+	headHeap   *Heap            // heap at the head of the innermost enclosing loop (current iteration)
+	marks      map[string]*Heap // heap at earlier assert markers
 }
 
 func (env *Env) with(name string, v *Val) *Env {
@@ -709,6 +711,29 @@ func (vc *VC) compileCall(env *Env, n *SNode) *Val {
 		e2.heap = env.old
 		e2.localFirst = false // old(x): parameters denote their entry values
 		return vc.compile(&e2, args[0])
+	case "athead":
+		// athead(E): E evaluated in the heap at the head of the innermost enclosing loop (current iteration)
+		need(1)
+		if env.headHeap == nil {
+			sfail("athead: no enclosing loop head state available here")
+		}
+		e2 := *env
+		e2.heap = env.headHeap
+		return vc.compile(&e2, args[0])
+	case "at":
+		// at("marker", E): E evaluated in the heap as it was when that assert marker was last passed
+		need(2)
+		if args[0].Op != "str" {
+			sfail("at: first argument must be a marker string")
+		}
+		mk, _ := strconv.Unquote(args[0].Tok)
+		hm := env.marks[mk]
+		if hm == nil {
+			sfail("at: marker %q has not been passed (or has no assert clause)", mk)
+		}
+		e2 := *env
+		e2.heap = hm
+		return vc.compile(&e2, args[1])
 	case "len":
 		need(1)
 		return vc.specLen(vc.compile(env, args[0]))
